@@ -131,6 +131,9 @@ class Prop(Check):
         "Obj.C05_refs_inert_update",
         "Obj.C05_parent_of_type",
         "Obj.C05_ancestors_contained",
+        "Obj.C05_abstract_selection",
+        "Obj.C05_abstract_pinned_false",
+        "Obj.C05_nav_after_refs",
         "Obj.C05_history_view",
         "Obj.C05_history_navigation",
         "Obj.C05_history_model",
@@ -157,8 +160,10 @@ class Prop(Check):
                 "real Arpeggio parse tree -> Lean "
                 "process_node (parent links, containment lists; bool(obj) of the generated user classes is the model's "
                 "truthiness parameter); not exhibited: user classes that override "
-                "attribute access or define __slots__, object processors replacing objects (C13), grammars whose rule is "
-                "named 'sep'")
+                "attribute access or define __slots__, object processors replacing objects (C13); abstract-rule nodes "
+                "follow the repaired selection (first non-terminal child that is not a match-rule node), exercised by "
+                "match-rule calls around the rule reference of abstract alternatives; the build op also yields "
+                "PosDict.geo / posRuleDict of the containment tree (C34), compared with _pos_rule_dict")
     ASSUMPTIONS = [
         "get_children_of_type / get_parent_of_type compare class *names* (documented: 'typ: str or python class'); "
         "'of the given type' is read as exact class-name equality, not inheritance",
@@ -317,7 +322,16 @@ class Prop(Check):
         # the objects as Python stores them (class identity, instance dictionary; no meta data) and the number of
         # meta-model constructions that had taken place when the calls above were made
         pheap = [S.dump_obj(ro, names.index(type(ro).__name__), parents[i][1], idx) for i, ro in enumerate(real)]
+        # editor support: the position map of a model loaded with textx_tools_support (values as object numbers)
+        posdict = None
+        prd = getattr(L.model, "_pos_rule_dict", None)
+        if prd is not None:
+            try:
+                posdict = [[k[0], k[1], idx.get(id(v), -1)] for k, v in prd.items()]
+            except Exception as e:
+                posdict = {"exc": type(e).__name__}
         obs = {"outcome": "ok", "n": n, "heap": heap, "parents": parents, "models": models, "answers": answers,
+               "posdict": posdict,
                "unknown": unknown[:10], "names": names, "truth": truth, "pheap": pheap, "upto": len(S.hist)}
         obs.update(self.dump_ptree(L, names))
         return obs
@@ -423,6 +437,17 @@ class Prop(Check):
             got = None if p is None else lean_of.get(p, -2)
             if want != got:
                 return f"object {eid}: parent {p} in the implementation, model parent {want} (model ids)"
+        # C34 on the model of process_node: the geometry holds (C34_geo_of_build) and, when every object the
+        # construction allocated is contained in the model, the position map computed from the containment tree
+        # is the one textX recorded
+        if "geo" in b and b["geo"] is not True:
+            return "model: the containment tree of the built model does not have the geometry PosDict.geo"
+        pd = obs.get("posdict")
+        if pd is not None and "posdict" in b and b.get("nodes") == len(b["objs"]) == len(obs["heap"]):
+            eid_of = {l: e for e, l in lean_of.items()}
+            want = [[s, e, eid_of.get(i, -2)] for s, e, i in b["posdict"]]
+            if pd != want:
+                return f"_pos_rule_dict items (start, end, object) = {pd}, model (containment tree of Obj.build) {want}"
         return None
 
     # ------------------------------------------------------------------ oracle
@@ -620,7 +645,23 @@ class Prop(Check):
                     last[cid] = cont
             if changed and o.get("outcome") == "ok" and any(po[0] in changed for po in o.get("pheap") or []):
                 sess["cases_whose_last_model_has_instances_of_such_a_class"] += 1
+        absn = None
+        for o in obs:
+            if isinstance(o, dict) and o.get("ptree") is not None:
+                absn = G.abs_stats(o["ptree"], absn)
+        tools = {"models_with_pos_rule_dict": 0, "compared_with_the_model": 0, "with_objects_sharing_a_span": 0}
+        for o, out in zip(obs, outs):
+            if not (isinstance(o, dict) and isinstance(o.get("posdict"), list)):
+                continue
+            tools["models_with_pos_rule_dict"] += 1
+            b = (out or {}).get("outs", [None, None])[1] if isinstance(out, dict) and len((out or {}).get("outs", [])) > 1 else None
+            if isinstance(b, dict) and "posdict" in b and b.get("nodes") == len(b.get("objs", [])) == len(o["heap"]):
+                tools["compared_with_the_model"] += 1
+                if len(b["posdict"]) < b["nodes"]:
+                    tools["with_objects_sharing_a_span"] += 1
         return {"distribution": {"outcomes": outcomes, "objects_total": sum(sizes), "objects_max": max(sizes or [0]),
+                                 "abstract_nodes_with_several_children": absn,
+                                 "editor_support_position_maps": tools,
                                  "sessions": sess,
                                  "navigation_calls": nq, "cases_with_user_classes": user,
                                  "cases_per_user_class_trait": traits, "falsy_objects": falsy,
